@@ -147,8 +147,8 @@ var props = map[string]*propCfg{
 	},
 	"C04": {
 		Title:    "line splitting is exact and returned buffers are never overwritten",
-		Quick:    tierCfg{Runs: 25000, Chunk: 800, DetRuns: 48, ShrinkSec: 30},
-		Thorough: tierCfg{Runs: 1250000, Chunk: 20000, DetRuns: 256, ShrinkSec: 120},
+		Quick:    tierCfg{Runs: 25000, Chunk: 800, RaceRuns: 320, DetRuns: 48, ShrinkSec: 30},
+		Thorough: tierCfg{Runs: 1250000, Chunk: 20000, RaceRuns: 16000, DetRuns: 256, ShrinkSec: 120},
 		Rule: "one evaluation = one scanner case: a byte string (length 0-200 over alphabets dense in \\n and \\r) scanned by readahead.NewImmediate (buffer 1-64 or 128KiB) or NewBuffered (2-64) through a scripted reader whose Read results (chunk size, (0,nil) stalls, data-with-EOF, and in odd-indexed runs one injected non-EOF error with or without data) are drawn from the tape; one case in 24 is a long stream (100-400 short lines) under a reader that stalls with probability 30-80 % in runs of up to 150 and may hand out whole lines only; 16 cases per run index; " +
 			"distinct_nontrivial = distinct hashes of (scanner kind, buffer size, content, read script) among cases where at least one chunk boundary fell inside a line",
 		Real:  []string{"pkg/readahead"},
